@@ -361,6 +361,13 @@ impl Stake {
                         },
                     }
                 };
+                // now and then the listening contract itself asks to be (un)subscribed
+                let mut side = rng.clone();
+                side.below(1000);
+                let sender = match &op {
+                    Op::AddHook { which } | Op::RemoveHook { which } if side.chance(1, 5) => w.hook_pool[*which].to_string(),
+                    _ => sender,
+                };
                 (sender, op)
             }
             _ => (user, Op::Donate { amount: 1 + rng.below(500) as u128 }),
@@ -713,6 +720,9 @@ impl Stake {
         if prop == "C14" {
             let admin_op = matches!(op, Op::AddHook { .. } | Op::RemoveHook { .. } | Op::UpdateAdmin { .. });
             if admin_op {
+                if w.hook_pool.iter().any(|x| x.as_str() == sender) {
+                    h.out.count("stake_hook_calls_sent_by_a_hook_contract");
+                }
                 if ok {
                     h.out.count("stake_admin_calls_ok");
                     if !h.check(was_admin, &format!("C14/stake/{kind}/accepted-from-non-admin"), || format!("{sender}, admin was {:?}", pre.admin)) {
